@@ -92,24 +92,7 @@ func (c *Ctx) checkScriptDataHashRule(fn *ssa.Function) {
 		return
 	}
 	// unpack preimage
-	var parts []ssa.Value
-	cur := hashCall.Call.Args[0]
-	for i := 0; i < 6; i++ {
-		call, ok := cur.(*ssa.Call)
-		if !ok {
-			break
-		}
-		b, isB := call.Call.Value.(*ssa.Builtin)
-		if !isB || b.Name() != "append" {
-			break
-		}
-		parts = append([]ssa.Value{call.Call.Args[1]}, parts...)
-		cur = call.Call.Args[0]
-	}
-	baseOK := false
-	if ms, ok := cur.(*ssa.MakeSlice); ok {
-		baseOK = desc(ms.Len) == "0"
-	}
+	parts, baseOK := concatParts(hashCall.Call.Args[0])
 	if len(parts) != 3 || !baseOK {
 		c.Bad("hash-preimage", key, hashCall.Pos(), "the hashed bytes are not redeemers ‖ datums ‖ language views appended to an empty buffer (%d parts found)", len(parts))
 		return
@@ -497,4 +480,58 @@ func indexOf(v ssa.Value) ssa.Value {
 		return x.Index
 	}
 	return nil
+}
+
+// concatParts: the byte strings concatenated, in order, to form v: an append chain over an empty base, or
+// slices.Concat over a list of slices. ok is false when the base is not empty or the shape is neither.
+func concatParts(v ssa.Value) (parts []ssa.Value, ok bool) {
+	if call, isCall := v.(*ssa.Call); isCall && strings.HasPrefix(calleeName(&call.Call), "slices.Concat") && len(call.Call.Args) == 1 {
+		sl, isSl := call.Call.Args[0].(*ssa.Slice)
+		if !isSl {
+			return nil, false
+		}
+		al, isAl := sl.X.(*ssa.Alloc)
+		if !isAl {
+			return nil, false
+		}
+		byIdx := map[int64]ssa.Value{}
+		for _, r := range *al.Referrers() {
+			if ia, isIA := r.(*ssa.IndexAddr); isIA {
+				k, isK := ia.Index.(*ssa.Const)
+				if !isK {
+					return nil, false
+				}
+				for _, rr := range *ia.Referrers() {
+					if st, isSt := rr.(*ssa.Store); isSt && st.Addr == ia {
+						byIdx[k.Int64()] = st.Val
+					}
+				}
+			}
+		}
+		for i := int64(0); i < int64(len(byIdx)); i++ {
+			e, has := byIdx[i]
+			if !has {
+				return nil, false
+			}
+			parts = append(parts, e)
+		}
+		return parts, true
+	}
+	cur := v
+	for i := 0; i < 8; i++ {
+		call, isCall := cur.(*ssa.Call)
+		if !isCall {
+			break
+		}
+		b, isB := call.Call.Value.(*ssa.Builtin)
+		if !isB || b.Name() != "append" {
+			break
+		}
+		parts = append([]ssa.Value{call.Call.Args[1]}, parts...)
+		cur = call.Call.Args[0]
+	}
+	if ms, isMS := cur.(*ssa.MakeSlice); isMS {
+		return parts, desc(ms.Len) == "0"
+	}
+	return parts, isNilConst(cur)
 }
